@@ -191,7 +191,13 @@ func Solve(vc *VC, opts SolveOpts) error {
 					// escalate: all solvers, longer timeout, models
 					err = solveOne(vc, o, fb+".x", Solvers, opts.TimeoutMs*3, need2, true)
 				} else if err == nil && need2 && o.Status == "unsat" && !strings.Contains(o.Solver, "+") {
-					err = solveOne(vc, o, fb+".x", Solvers, opts.TimeoutMs*3, true, false)
+					// second opinion (thorough tier): give the other solvers 10 s; an obligation one
+					// solver discharged stays discharged if they cannot confirm it in that time
+					first := *o
+					err = solveOne(vc, o, fb+".x", Solvers, 10000, true, false)
+					if err == nil && o.Status != "unsat" && o.Status != "sat" {
+						*o = first
+					}
 				}
 				if err == nil && o.Status != "sat" {
 					cachePut(opts.CacheDir, key, cacheEntry{o.Status, o.Solver, o.TimeS})
@@ -209,7 +215,71 @@ func Solve(vc *VC, opts SolveOpts) error {
 			}
 		}()
 	}
+	// groups first: all members as one conjunction under the first member's hypothesis (later
+	// members' hypotheses are that one plus the earlier goals).  What a group query does not
+	// settle is solved member by member below.
+	groups := map[string][]*Obligation{}
+	var order []string
+	for _, o := range vc.Obls {
+		if o.Group != "" && !o.Cover && o.KF == "" {
+			if _, ok := groups[o.Group]; !ok {
+				order = append(order, o.Group)
+			}
+			groups[o.Group] = append(groups[o.Group], o)
+		}
+	}
+	var gwg sync.WaitGroup
+	gsem := make(chan struct{}, workers)
+	for gi, g := range order {
+		ms := groups[g]
+		if len(ms) < 2 || (opts.SecondOpin) {
+			continue
+		}
+		gwg.Add(1)
+		go func(gi int, ms []*Obligation) {
+			defer gwg.Done()
+			gsem <- struct{}{}
+			defer func() { <-gsem }()
+			var goals []string
+			for _, m := range ms {
+				goals = append(goals, m.Goal)
+			}
+			hyp := ms[0].Hyp
+			allNo := true
+			for _, m := range ms {
+				if !m.NoAssume {
+					allNo = false
+				}
+			}
+			if allNo {
+				// nothing was assumed in between: the last hypothesis is the first plus type facts
+				hyp = ms[len(ms)-1].Hyp
+			}
+			syn := &Obligation{Name: ms[0].Name + "+group", Hyp: hyp, Goal: And(goals...)}
+			key := queryScript(vc, syn, false)
+			if ce, ok := cacheGet(opts.CacheDir, key); ok && ce.Status == "unsat" {
+				for _, m := range ms {
+					m.Status, m.Solver, m.TimeS, m.Cached = "unsat", ce.Solver, ce.TimeS/float64(len(ms)), true
+				}
+				return
+			}
+			fb := fmt.Sprintf("%s.g%d", base, gi)
+			if err := solveOne(vc, syn, fb, []Solver{Solvers[0], Solvers[1]}, first, false, false); err == nil && syn.Status == "unsat" {
+				cachePut(opts.CacheDir, key, cacheEntry{syn.Status, syn.Solver, syn.TimeS})
+				for _, m := range ms {
+					m.Status, m.Solver, m.TimeS = "unsat", syn.Solver, syn.TimeS/float64(len(ms))
+				}
+			}
+		}(gi, ms)
+	}
+	gwg.Wait()
 	for i, o := range vc.Obls {
+		if o.Status == "unsat" && o.Group != "" {
+			if opts.Progress != nil {
+				opts.Progress(o)
+			}
+			continue
+		}
 		jobs <- job{i, o}
 	}
 	close(jobs)
